@@ -246,6 +246,16 @@ impl Repr {
         if packet.dst_port() == 0 {
             return Err(Error);
         }
+        // An all-zero checksum means "no checksum", which IPv6 does not allow
+        // (RFC 8200 8.1); `verify_checksum` accepts it for any address family.
+        #[cfg(feature = "proto-ipv6")]
+        if checksum_caps.udp.rx()
+            && packet.checksum() == 0
+            && matches!(dst_addr, IpAddress::Ipv6(_))
+            && !cfg!(fuzzing)
+        {
+            return Err(Error);
+        }
         // Valid checksum is expected...
         if checksum_caps.udp.rx() && !packet.verify_checksum(src_addr, dst_addr) {
             match (src_addr, dst_addr) {
